@@ -89,14 +89,18 @@ def body_unit(unit):
     for body in bodies:
         part['states'] += 1
         # committed + raise after every prefix
-        for k in [None] + list(range(len(body) + 1)):
+        for k in [None] + list(range(len(body) + 1)) + (
+                ['hard'] if len(body) == 1 else []):
+            hard = k == 'hard'
+            if hard:
+                k = len(body)
             w = CacheWorld(MFS)
             try:
                 for o in INITS[init]:
                     w.apply_fast(o)
                 pre = full_state(w.dir)
                 pre_rows = Snapshot(w.dir).contents()
-                op = ('block', tuple(body), k)
+                op = ('block', tuple(body), k) + (('hard',) if hard else ())
                 got, problems = w.apply(op)
                 part['transitions'] += 1
                 part['executions'] += 1
